@@ -1068,8 +1068,8 @@ def k_equal_isneg(base, chk):
     fname = base.prog.find("Element).Equal")
     k = BVK(base, chk, fname)
     chk.used(base.prog, "crypto/subtle.ConstantTimeCompare", "BV (standard library SSA)")
-    v, vl = k.elem("v")
-    u, ul = k.elem("u")
+    v, vl = k.elem("v", 2**52 - 1)     # the documented precondition of the field operations: limbs < 2^52
+    u, ul = k.elem("u", 2**52 - 1)
     gv, gu = k.bv("canon(v)", 255), k.bv("canon(u)", 255)
     k.path.pc += [z3.ULT(gv, z3.BitVecVal(P, 255)), z3.ULT(gu, z3.BitVecVal(P, 255))]
     canon_summaries(k, {tuple(map(str, vl)): gv, tuple(map(str, ul)): gu})
@@ -1113,7 +1113,7 @@ def k_equal_isneg(base, chk):
 
     fname = base.prog.find("Element).IsNegative")
     k = BVK(base, chk, fname)
-    v, vl = k.elem("v")
+    v, vl = k.elem("v", 2**52 - 1)
     gv = k.bv("canon(v)", 255)
     k.path.pc.append(z3.ULT(gv, z3.BitVecVal(P, 255)))
     canon_summaries(k, {tuple(map(str, vl)): gv})
@@ -1131,7 +1131,13 @@ def k_equal_isneg(base, chk):
         from . import native, ref
         import random
         rng = random.Random(seed)
-        cands = [ref.limbs_of(int(m["canon(v)"])) for m in models if "canon(v)" in m] + ref.limb_candidates(rng, 64)
+        cands = [ref.limbs_of(int(m["canon(v)"])) for m in models if "canon(v)" in m]
+        # the representation the solver found (limbs within the documented bound), and loose forms of small values
+        cands += [[int(m["v.l%d" % i]) for i in range(5)] for m in models if all("v.l%d" % i in m for i in range(5))]
+        M_ = 2**51 - 1
+        for k_ in list(range(0, 40)) + [2**51 - 19, 2**51 - 1]:
+            cands += [[k_, 2**51, M_, M_, M_], [k_, M_, M_, M_, 2**51], [k_ + 2**51, M_, M_, M_, M_], [k_, 0, 0, 2**51, M_], [(k_ + 2**51 - 19) % 2**52, M_, M_, M_, M_]]
+        cands += ref.limb_candidates(rng, 64, bound=2**52 - 1)
         res = native.run_ops("field", [{"op": "IsNegative", "args": ["v"], "init": {"v": ref.fmt_limbs(c)}} for c in cands])
         for c, r in zip(cands, res):
             if "panic" in r or r["int"] != (ref.fe_val(c) % P) & 1:
